@@ -379,6 +379,13 @@ fn populations(max_n: usize) -> Vec<Vec<TInd>> {
     pops.push(vec![(0, 3e-17), (1, 1e-17), (2, 0.0), (3, 2e-17)]);
     pops.push(vec![(0, 1.0 + 4.0 * f64::EPSILON), (1, 1.0 + f64::EPSILON), (2, 1.0 + 2.0 * f64::EPSILON)]);
     pops.push(vec![(0, 1.0), (1, 0.0), (2, -0.0)]);
+    // objective ranges r with r * (1 / r) != 1 in double arithmetic (49, 98, 103, 107, 161, ...): copy counts
+    // that are computed from a normalised fitness must still reach the documented extremes
+    pops.push(vec![(0, 49.0), (1, 0.0)]);
+    pops.push(vec![(0, 0.0), (1, 98.0), (2, 49.0)]);
+    pops.push(vec![(0, 103.0), (1, 0.0), (2, 51.5)]);
+    pops.push(vec![(0, -107.0), (1, 54.0)]);
+    pops.push(vec![(0, 0.3), (1, 161.3), (2, 80.8), (3, 0.3)]);
     // exact twins (same solution, same objective): still separate individuals for counts and distinctness
     pops.push(vec![(0, 1.0), (0, 1.0), (1, 2.0)]);
     pops.push(vec![(0, 1.0), (0, 1.0), (0, 1.0), (0, 1.0)]);
